@@ -686,6 +686,60 @@ def _list_discipline(ctx: Ctx, ci: ClassInfo, field: str, rule_key: str) -> None
               bad=(bad[0][2] if bad else f"`{field}` is not initialised as an empty list") + ": messages can be delivered out of emission order or lost")
 
 
+def _step_log_binding(ctx: Ctx) -> None:
+    """ctx.client_log() during a stream step reaches the collector that is flushed for that step (all three stream loops)."""
+    # per-step log callback goes to the collector handed to that step
+    for spec, label in ((SERVE_STREAM, "pipe"), ("vgi_rpc/http/server/_app_stream.py:_run_http_exchange_turn", "http-exchange"), ("vgi_rpc/http/server/_app_stream.py:_run_http_producer_turn", "http-producer")):
+        f = ctx.fn(spec)
+        pcs = [c for c in calls(f) if last_attr(c) == "process" and len(c.args) >= 3]
+        pc = one(pcs, "state.process(input, out, ctx) call", f)
+        outn = pc.args[1].id if isinstance(pc.args[1], ast.Name) else None
+        ctxn = pc.args[2].id if isinstance(pc.args[2], ast.Name) else None
+        if outn is None or ctxn is None:
+            raise AnalysisError(f"C08: process() arguments are not plain names in {f.fq}")
+        ctors = [n.value for n in walk_scope(f.node) if isinstance(n, ast.Assign) and isinstance(n.value, ast.Call) and any(isinstance(t, ast.Name) and t.id == ctxn for t in n.targets)]
+        cc = one(ctors, f"construction of the CallContext `{ctxn}`", f)
+        ecl = kw(cc, "emit_client_log")
+        ok = False
+        how = ""
+        if isinstance(ecl, ast.Attribute) and ecl.attr == "emit_client_log_message" and isinstance(ecl.value, ast.Name) and ecl.value.id == outn:
+            # ... and the collector is not rebound between capturing its bound method and handing it to process()
+            fcfg1 = cfg_of(f.node)
+            after_ctx = fcfg1.reach(fcfg1.done(cc), include_start=False)
+            rebound = [n for n in walk_scope(f.node) if any(isinstance(t, ast.Name) and t.id == outn for t in assign_parts(n)[0])
+                       and (fcfg1.attempt(n) & after_ctx) and (fcfg1.reach(fcfg1.done(n), fcfg1.done(cc), include_start=False) & fcfg1.attempt(pc))]
+            ok, how = not rebound, f"bound method of the step's collector `{outn}`"
+        elif isinstance(ecl, ast.Name) and ecl.id in f.nested:
+            # forwarding closure: calls emit_client_log_message on a cell that is set to the step's collector before process()
+            nf = f.nested[ecl.id]
+            fw = [c for c in calls(nf) if last_attr(c) == "emit_client_log_message"]
+            cells = {s.value.id for n in walk_scope(nf.node) for s in [getattr(n, "value", None)] if isinstance(n, ast.Assign) and isinstance(s, ast.Subscript) and isinstance(s.value, ast.Name)}
+            fcfg2 = cfg_of(f.node)
+            sets = [n for n in walk_scope(f.node) if isinstance(n, ast.Assign) and any(isinstance(t, ast.Subscript) and isinstance(t.value, ast.Name) and t.value.id in cells for t in n.targets) and isinstance(n.value, ast.Name) and n.value.id == outn]
+            if fw and sets:
+                # from the collector's construction to process(), the cell assignment must happen
+                octor = [n for n in walk_scope(f.node) if isinstance(n, ast.Assign) and any(isinstance(t, ast.Name) and t.id == outn for t in n.targets)]
+                oc1 = one(octor, f"construction of the collector `{outn}`", f)
+                rr = fcfg2.reach(fcfg2.done(oc1), set().union(*[fcfg2.done(s) for s in sets]), include_start=False)
+                ok = not (rr & fcfg2.attempt(pc))
+                how = f"closure `{ecl.id}` forwarding to the cell set to `{outn}` before process()"
+        elif isinstance(ecl, ast.Name) and any(last_attr(c) == "flush_contents" and isinstance(c.func, ast.Attribute) and isinstance(c.func.value, ast.Name) and c.func.value.id == ecl.id for c in calls(f)):
+            # the call-level sink: after flush_contents it writes each message as it is emitted, while out.client_log()
+            # appends to the step's collector, which is written only after process() returns.  A step that uses both
+            # emission APIs gets its ctx logs delivered ahead of earlier collector logs (before the flush the sink
+            # buffers and nothing flushes it again: the message is lost) -- emission order is not preserved.
+            ok = False
+            how = f"call-level sink `{ecl.id}`"
+            ctx.fail("RF-DOM", f"step-logs-go-to-step-collector:{label}", f, cc,
+                     f"ctx.client_log() during process() is bound to the call-level sink `{ecl.id}`, not to the step's collector `{outn}`: messages emitted through the context are written "
+                     "immediately (or buffered and never flushed) while out.client_log() messages wait for the step's flush, so a step that emits through both is delivered out of emission order")
+            continue
+        else:
+            raise AnalysisError(f"C08: unsupported emit_client_log binding `{txt(ecl) if ecl is not None else None}` in {f.fq}")
+        ctx.check(ok, "RF-DOM", f"step-logs-go-to-step-collector:{label}", f, cc, ok=f"logs emitted during process() are appended to that step's collector ({how}), ahead of the data batch emitted after them",
+                  bad="logs emitted during process() do not reach the collector that is flushed for this step: they are lost or delivered with a later batch")
+
+
 def _server_ordering(ctx: Ctx, model: ExcModel) -> None:
     # ---------------------------------------------------------------- _ClientLogSink
     sink = ctx.repo.cls(f"{WIRE}:_ClientLogSink")
@@ -849,56 +903,7 @@ def _server_ordering(ctx: Ctx, model: ExcModel) -> None:
     bad2 = [c for c in fcs if scfg.attempt(c) & r]
     ctx.check(bool(fl) and not bad2, "RF-DOM", "init-logs-flushed-before-first-output", ss, bad2[0] if bad2 else fl[0] if fl else None,
               ok="logs emitted during stream init are flushed to the output stream before the first process() output", bad="process() output can be written before the init-time logs")
-    # per-step log callback goes to the collector handed to that step
-    for spec, label in ((SERVE_STREAM, "pipe"), ("vgi_rpc/http/server/_app_stream.py:_run_http_exchange_turn", "http-exchange"), ("vgi_rpc/http/server/_app_stream.py:_run_http_producer_turn", "http-producer")):
-        f = ctx.fn(spec)
-        pcs = [c for c in calls(f) if last_attr(c) == "process" and len(c.args) >= 3]
-        pc = one(pcs, "state.process(input, out, ctx) call", f)
-        outn = pc.args[1].id if isinstance(pc.args[1], ast.Name) else None
-        ctxn = pc.args[2].id if isinstance(pc.args[2], ast.Name) else None
-        if outn is None or ctxn is None:
-            raise AnalysisError(f"C08: process() arguments are not plain names in {f.fq}")
-        ctors = [n.value for n in walk_scope(f.node) if isinstance(n, ast.Assign) and isinstance(n.value, ast.Call) and any(isinstance(t, ast.Name) and t.id == ctxn for t in n.targets)]
-        cc = one(ctors, f"construction of the CallContext `{ctxn}`", f)
-        ecl = kw(cc, "emit_client_log")
-        ok = False
-        how = ""
-        if isinstance(ecl, ast.Attribute) and ecl.attr == "emit_client_log_message" and isinstance(ecl.value, ast.Name) and ecl.value.id == outn:
-            # ... and the collector is not rebound between capturing its bound method and handing it to process()
-            fcfg1 = cfg_of(f.node)
-            after_ctx = fcfg1.reach(fcfg1.done(cc), include_start=False)
-            rebound = [n for n in walk_scope(f.node) if any(isinstance(t, ast.Name) and t.id == outn for t in assign_parts(n)[0])
-                       and (fcfg1.attempt(n) & after_ctx) and (fcfg1.reach(fcfg1.done(n), fcfg1.done(cc), include_start=False) & fcfg1.attempt(pc))]
-            ok, how = not rebound, f"bound method of the step's collector `{outn}`"
-        elif isinstance(ecl, ast.Name) and ecl.id in f.nested:
-            # forwarding closure: calls emit_client_log_message on a cell that is set to the step's collector before process()
-            nf = f.nested[ecl.id]
-            fw = [c for c in calls(nf) if last_attr(c) == "emit_client_log_message"]
-            cells = {s.value.id for n in walk_scope(nf.node) for s in [getattr(n, "value", None)] if isinstance(n, ast.Assign) and isinstance(s, ast.Subscript) and isinstance(s.value, ast.Name)}
-            fcfg2 = cfg_of(f.node)
-            sets = [n for n in walk_scope(f.node) if isinstance(n, ast.Assign) and any(isinstance(t, ast.Subscript) and isinstance(t.value, ast.Name) and t.value.id in cells for t in n.targets) and isinstance(n.value, ast.Name) and n.value.id == outn]
-            if fw and sets:
-                # from the collector's construction to process(), the cell assignment must happen
-                octor = [n for n in walk_scope(f.node) if isinstance(n, ast.Assign) and any(isinstance(t, ast.Name) and t.id == outn for t in n.targets)]
-                oc1 = one(octor, f"construction of the collector `{outn}`", f)
-                rr = fcfg2.reach(fcfg2.done(oc1), set().union(*[fcfg2.done(s) for s in sets]), include_start=False)
-                ok = not (rr & fcfg2.attempt(pc))
-                how = f"closure `{ecl.id}` forwarding to the cell set to `{outn}` before process()"
-        elif isinstance(ecl, ast.Name) and any(last_attr(c) == "flush_contents" and isinstance(c.func, ast.Attribute) and isinstance(c.func.value, ast.Name) and c.func.value.id == ecl.id for c in calls(f)):
-            # the call-level sink: after flush_contents it writes each message as it is emitted, while out.client_log()
-            # appends to the step's collector, which is written only after process() returns.  A step that uses both
-            # emission APIs gets its ctx logs delivered ahead of earlier collector logs (before the flush the sink
-            # buffers and nothing flushes it again: the message is lost) -- emission order is not preserved.
-            ok = False
-            how = f"call-level sink `{ecl.id}`"
-            ctx.fail("RF-DOM", f"step-logs-go-to-step-collector:{label}", f, cc,
-                     f"ctx.client_log() during process() is bound to the call-level sink `{ecl.id}`, not to the step's collector `{outn}`: messages emitted through the context are written "
-                     "immediately (or buffered and never flushed) while out.client_log() messages wait for the step's flush, so a step that emits through both is delivered out of emission order")
-            continue
-        else:
-            raise AnalysisError(f"C08: unsupported emit_client_log binding `{txt(ecl) if ecl is not None else None}` in {f.fq}")
-        ctx.check(ok, "RF-DOM", f"step-logs-go-to-step-collector:{label}", f, cc, ok=f"logs emitted during process() are appended to that step's collector ({how}), ahead of the data batch emitted after them",
-                  bad="logs emitted during process() do not reach the collector that is flushed for this step: they are lost or delivered with a later batch")
+    _step_log_binding(ctx)
     # header stream: buffered logs are flushed into it, then the sink returns to buffering before the writer closes for good
     wh = ctx.fn(f"{WIRE}:_write_stream_header")
     hcfg = cfg_of(wh.node)
